@@ -153,6 +153,19 @@ pub fn gen_case2(prop: &str, tier: Tier, _seed: u64, idx: u64, r: &mut Rng) -> O
                 h.ops.retain(|op| op.is_finish());
             }
             h.cfg.fast_start = Some(shape < 6);
+            if !small && idx % 97 == 5 {
+                // a recording of nine thousand tiny frames (thresholds in the thousands of samples)
+                let mut cfg = Cfg::basic(VP9);
+                cfg.fast_start = Some(idx % 2 == 1);
+                let mut ops = Vec::new();
+                for i in 0..9000u32 {
+                    let kind = if i == 0 { FrameKind::KeyCfg } else { FrameKind::Delta };
+                    let f = if i < 2 { crate::gen::frames::vp9_frame(r, kind, 3).0 } else { vec![0x49, 0x83, 0x42, 0x50 | (i & 0xf) as u8, (i >> 4) as u8, i as u8] };
+                    ops.push(Op::wv(i as f64 / 30.0, f, i == 0));
+                }
+                ops.push(Op::Finish(FinishKind::InPlaceStats));
+                h = History { cfg, ops };
+            }
             // after the (first) finish, call every kind of entry point again
             let kf = video_frame(r, h.cfg.vcodec, FrameKind::KeyCfg, 8, false);
             h.ops.retain(|op| !op.is_finish());
@@ -495,7 +508,7 @@ pub fn c16_case(r: &mut Rng, idx: u64) -> Case {
             // ordinary histories: the casts must all fit
             // (with rejected calls in between: what a rejected call leaves behind must not show up
             // in the declared durations either)
-            let o = GenOpts { hostile_pct: 12, reorder_pct: 40, audio_pct: 70, ..Default::default() };
+            let o = GenOpts { hostile_pct: 12, reorder_pct: 40, audio_pct: 70, encode_pct: 20, meta_pct: 40, ..Default::default() };
             return Case::Hist { h: gen_history(r, &o), side: Side::default() };
         }
     }
@@ -711,6 +724,15 @@ fn c20_case(r: &mut Rng) -> CliCase {
         c.sample_rate = Some(a.rate);
         c.channels = Some(a.channels as u8);
         c.audio = Some(FileSpec { exists: true, content: hexify(r, &af) });
+    }
+    else if r.chance(1, 6) {
+        // audio SETTINGS without an --audio input: nothing to mux, the result is the library's
+        // video-only file
+        c.sample_rate = Some(*r.pick(&[48_000u32, 44_100]));
+        c.channels = Some(r.range(1, 2) as u8);
+        if r.chance(1, 2) {
+            c.acodec = Some(r.pick(&["aac", "opus"]).to_string());
+        }
     }
     if r.chance(1, 3) {
         c.title = Some(r.pick(&["Test", "", "Ünï — ☃", "a b c", "x=1;y=2"]).to_string());
@@ -936,6 +958,17 @@ pub fn eval_case2(prop: &str, case: &Case, obs: &mut Obs) -> Vec<Violation> {
             obs.nontrivial(h.hash());
             obs.sample(format!("{} => {:?}", h.brief(), ex.results.iter().map(|r| r.brief()).collect::<Vec<_>>()));
             let mut out = mon::c16::check_file(&a, obs);
+            // "holds the exact mathematical value implied by the input": the sample durations,
+            // composition offsets and media durations are C03's oracle, box sizes C02's tiling
+            let mut scratch = Obs::default();
+            for v in mon::c03::check(&a, &mut scratch) {
+                out.push(Violation::new("C16", format!("exact-value|{}", v.sig.trim_start_matches("C03|")), v.detail));
+            }
+            for v in mon::c02::check_file(&a, &mut scratch) {
+                if v.sig.contains("tiling") {
+                    out.push(Violation::new("C16", format!("box-size|{}", v.sig.trim_start_matches("C02|")), v.detail));
+                }
+            }
             let results = &ex.results;
             out.extend(mon::c16::check_casts(&ex.casts, &|i| results.get(i).map(|r| r.is_ok()).unwrap_or(false), &|i| h.ops.get(i).map(|o| o.brief()).unwrap_or_default(), obs));
             out
